@@ -183,7 +183,12 @@ class Interp:
         def m_floor(x=None):
             x = num_arg(x, "floor")
             if is_int(x): return [x]
-            if isinstance(x, SFloat): return [SInt(FFLOOR(x.t))]
+            if isinstance(x, SFloat):
+                if x.ratio is not None:
+                    a_, b_ = x.ratio
+                    if self.fk.branch(b_ == 0): raise Unsupported("math.floor of n/0")
+                    return [mk_int(z3.If(b_ > 0, a_ / b_, (-a_) / (-b_)))]
+                return [SInt(FFLOOR(x.t))]
             if math.isinf(x) or math.isnan(x): return [x]
             return [math.floor(x)]
         def m_ceil(x=None):
@@ -496,7 +501,9 @@ class Interp:
             ch = self.fk.decide(opts)
         else: ch = "none"
         if ch == "none":
-            if v is not None: t.sym.append([k, v])
+            if v is not None:
+                if isinstance(k, SInt): t.d[self.fk.concretize(k.t)] = v       # a fresh integer key is made concrete (forking)
+                else: t.sym.append([k, v])
         elif ch[0] == "c":
             if v is None: del t.d[ch[1]]
             else: t.d[ch[1]] = v
@@ -646,6 +653,9 @@ class Interp:
             fd = z3.If(y > 0, x / y, (-x) / (-y))
             if op == "//": return mk_int(fd)
             return mk_int(x - fd * y)
+        if op == "/" and is_int(a) and is_int(b):
+            # quotient of two bounded integers: remembered exactly, so that math.floor(a / b) is integer floor division
+            return SFloat(z3.fpDiv(RNE, fterm(to_float(a)), fterm(to_float(b))), ratio=(iterm(a), iterm(b)))
         x, y = fterm(to_float(a)), fterm(to_float(b))
         if op == "+": return SFloat(z3.fpAdd(RNE, x, y))
         if op == "-": return SFloat(z3.fpSub(RNE, x, y))
